@@ -56,6 +56,7 @@ const (
 	pOracleA
 	pOracleB
 	pDeputy
+	pDeputyB // deputy of the second bep3 asset (xrp) only
 	pOwnerA // owner of issuance asset tok1
 	pOwnerB // owner of issuance asset tok2
 	pMemberA
@@ -90,6 +91,11 @@ var cdpTypes = []struct{ ctype, denom, spot, liq string }{
 	{"busd-a", "busd", "busd:usd", "busd:usd:30"},
 }
 
+var bep3Assets = []struct {
+	denom  string
+	deputy int
+}{{"bnb", pDeputy}, {"xrp", pDeputyB}}
+
 var swapPools = [][2]string{{"ukava", "usdx"}, {"bnb", "usdx"}}
 
 var storeNames = []string{
@@ -122,7 +128,7 @@ func coin(d string, x int64) sdk.Coin { return sdk.NewInt64Coin(d, x) }
 func mkWorld(r *c.Rng, out *c.Out) *world {
 	_, addrs := app.GeneratePrivKeyAddressPairs(pFresh + 1)
 	kinds := []string{"user-a-with-records", "user-b-with-records", "user-no-records", "oracle", "other-market-oracle",
-		"bep3-deputy", "asset-owner", "other-asset-owner", "committee-member", "committee-member-2",
+		"bep3-deputy", "other-asset-deputy", "asset-owner", "other-asset-owner", "committee-member", "committee-member-2",
 		"other-committee-member", "no-account"}
 	w := &world{out: out}
 	for i := 0; i <= pFresh; i++ {
@@ -168,12 +174,12 @@ func mkWorld(r *c.Rng, out *c.Out) *world {
 			if r.Chance(40) {
 				os = append(os, w.parties[c.Pick(r, extra)].addr)
 			}
-			if r.Chance(20) {
+			if i >= 2 && r.Chance(20) { // never on the first market: its oracle set stays disjoint from xrp:usd's
 				os = append([]sdk.AccAddress{w.parties[pOracleB].addr}, os...)
 			}
 		} else {
 			os = append(os, w.parties[pOracleB].addr)
-			if r.Chance(30) {
+			if i != len(marketIDs)-1 && r.Chance(30) {
 				os = append(os, w.parties[c.Pick(r, extra)].addr)
 			}
 		}
@@ -253,17 +259,24 @@ func mkWorld(r *c.Rng, out *c.Out) *world {
 	})
 
 	// bep3: bnb with the deputy
-	tl := r.Chance(40)
-	bep3GS := bep3types.GenesisState{
-		Params: bep3types.Params{AssetParams: bep3types.AssetParams{{
-			Denom: "bnb", CoinID: 714,
-			SupplyLimit: bep3types.SupplyLimit{Limit: sdkmath.NewInt(350_000_000_000_000), TimeLimited: tl,
+	bep3Asset := func(denom string, coinID int64, deputy int) bep3types.AssetParam {
+		return bep3types.AssetParam{
+			Denom: denom, CoinID: coinID,
+			SupplyLimit: bep3types.SupplyLimit{Limit: sdkmath.NewInt(350_000_000_000_000), TimeLimited: r.Chance(40),
 				TimeBasedLimit: sdkmath.NewInt(50_000_000_000), TimePeriod: time.Hour},
-			Active: true, DeputyAddress: w.parties[pDeputy].addr, FixedFee: sdkmath.NewInt(1000),
+			Active: true, DeputyAddress: w.parties[deputy].addr, FixedFee: sdkmath.NewInt(1000),
 			MinSwapAmount: sdkmath.NewInt(r.Range(1, 5)), MaxSwapAmount: sdkmath.NewInt(1_000_000_000_000),
 			MinBlockLock: bep3types.DefaultMinBlockLock, MaxBlockLock: bep3types.DefaultMaxBlockLock,
-		}}},
-		Supplies: bep3types.AssetSupplies{bep3types.NewAssetSupply(coin("bnb", 0), coin("bnb", 0), coin("bnb", 0), coin("bnb", 0), time.Duration(0))},
+		}
+	}
+	zeroSupply := func(d string) bep3types.AssetSupply {
+		return bep3types.NewAssetSupply(coin(d, 0), coin(d, 0), coin(d, 0), coin(d, 0), time.Duration(0))
+	}
+	// two assets served by DIFFERENT deputies: each deputy is a non-principal for the sibling asset
+	bep3GS := bep3types.GenesisState{
+		Params: bep3types.Params{AssetParams: bep3types.AssetParams{
+			bep3Asset(bep3Assets[0].denom, 714, bep3Assets[0].deputy), bep3Asset(bep3Assets[1].denom, 144, bep3Assets[1].deputy)}},
+		Supplies:          bep3types.AssetSupplies{zeroSupply(bep3Assets[0].denom), zeroSupply(bep3Assets[1].denom)},
 		PreviousBlockTime: bep3types.DefaultPreviousBlockTime,
 	}
 
@@ -407,14 +420,16 @@ func (w *world) populate(r *c.Rng) {
 		w.submit(cid)
 	}
 	// bep3: some incoming swaps, one claimed so that the current supply is positive (outgoing swaps possible)
-	for i := 0; i < 2; i++ {
-		rn, rnh, ts := w.randomNumber(r)
-		msg := bep3types.NewMsgCreateAtomicSwap(w.addr(pDeputy).String(), w.addr(pUserA).String(), "bnbRecipient", "bnbSender",
-			rnh, ts, sdk.NewCoins(coin("bnb", r.Range(10_000_000, 90_000_000))), bep3types.DefaultMinBlockLock)
-		if w.mustDeliver(&msg) && i == 0 {
-			id := bep3types.CalculateSwapID(rnh, w.addr(pDeputy), "bnbSender")
-			cl := bep3types.NewMsgClaimAtomicSwap(w.addr(pUserA).String(), id, rn)
-			w.mustDeliver(&cl)
+	for _, a := range bep3Assets {
+		for i := 0; i < 2; i++ {
+			rn, rnh, ts := w.randomNumber(r)
+			msg := bep3types.NewMsgCreateAtomicSwap(w.addr(a.deputy).String(), w.addr(pUserA).String(), "bnbRecipient", "bnbSender",
+				rnh, ts, sdk.NewCoins(coin(a.denom, r.Range(10_000_000, 90_000_000))), bep3types.DefaultMinBlockLock)
+			if w.mustDeliver(&msg) && i == 0 {
+				id := bep3types.CalculateSwapID(rnh, w.addr(a.deputy), "bnbSender")
+				cl := bep3types.NewMsgClaimAtomicSwap(w.addr(pUserA).String(), id, rn)
+				w.mustDeliver(&cl)
+			}
 		}
 	}
 	w.nextBlock(r.Range(1, 600))
@@ -504,8 +519,9 @@ func (w *world) evolve(r *c.Rng) {
 			w.mustDeliver(earntypes.NewMsgDeposit(w.addr(u).String(), coin("usdx", r.Range(1_000_000, 9_000_000)), earntypes.STRATEGY_TYPE_HARD))
 		case 9:
 			_, rnh, ts := w.randomNumber(r)
-			msg := bep3types.NewMsgCreateAtomicSwap(w.addr(pDeputy).String(), w.addr(c.Pick(r, []int{pUserA, pUserB, pUserC})).String(), "bnbRecipient", "bnbSender",
-				rnh, ts, sdk.NewCoins(coin("bnb", r.Range(10, 90_000_000))), bep3types.DefaultMinBlockLock)
+			a := c.Pick(r, bep3Assets)
+			msg := bep3types.NewMsgCreateAtomicSwap(w.addr(a.deputy).String(), w.addr(c.Pick(r, []int{pUserA, pUserB, pUserC})).String(), "bnbRecipient", "bnbSender",
+				rnh, ts, sdk.NewCoins(coin(a.denom, r.Range(10, 90_000_000))), bep3types.DefaultMinBlockLock)
 			w.deliver(w.ctx, &msg)
 		case 10:
 			w.submit(uint64(r.Range(1, 3)))
